@@ -26,7 +26,10 @@
 (*   [op |-> "comp", def, cased, gap, amb, mol, s, c, perr, err, panic,     *)
 (*           alphabet fields, pairing fields]                               *)
 (*   [op |-> "allvalid", name, def, cased, w, err, panic, ok, pos, qok,     *)
-(*           qpos]   AllValid(w) and AllValidQLetter(w with scores)         *)
+(*           qpos, wvalid, single, qsingle]                                 *)
+(*           AllValid(w) and AllValidQLetter(w with scores); for every      *)
+(*           letter of w: IsValid(w[i]), and the verdicts of AllValid and   *)
+(*           AllValidQLetter on the one-letter slice <<w[i]>>               *)
 (* err: "" or the class of the constructor's error ("nonascii", "length",   *)
 (* "bijection", "invalidpair", "other:..."); tables are empty after an      *)
 (* error.                                                                   *)
@@ -177,13 +180,27 @@ JudgeComp(e) ==
          ELSE IF IsErr(m) THEN Drift("a changing pair outside the alphabet is accepted (valid letters keep valid complements)")
          ELSE OK
 
+\* A slice is a sequence of letters (bytes), whatever it would mean as text: the expected answer is the first
+\* index whose byte is not a valid letter; IsValid, AllValid and AllValidQLetter must agree on every letter of it.
 JudgeAllValid(e) ==
   LET a == IF e.name # "" THEN NewAlphabet(Builtin(e.name).def, Builtin(e.name).cased) ELSE NewAlphabet(e.def, e.cased) IN
   IF e.panic # "" THEN Fail("panic: " \o e.panic)
   ELSE IF IsErr(a) \/ e.err # "" THEN (IF IsErr(a) /\ e.err # "" THEN OK ELSE Drift("constructor outcome differs (judged by its own event)"))
-  ELSE LET want == FirstInvalid(a, e.w) IN
-       IF want.ok # e.ok \/ want.pos # e.pos THEN Fail("AllValid does not report the first invalid position")
+  ELSE LET want == FirstInvalid(a, e.w)
+           n == Len(e.w)
+           badvalid == {i \in 1..n : e.wvalid[i] # a.valid[e.w[i]]}
+           badsingle == {i \in 1..n : e.single[i] # e.wvalid[i] \/ e.qsingle[i] # e.wvalid[i]}
+           firstbyisvalid == {i \in 1..n : ~e.wvalid[i] /\ \A j \in 1..(i - 1) : e.wvalid[j]}
+       IN
+       IF Len(e.wvalid) # n \/ Len(e.single) # n \/ Len(e.qsingle) # n THEN Fail("per-letter results of the slice incomplete")
+       ELSE IF badvalid # {}
+         THEN Fail(Why("IsValid of a letter of the slice differs from membership in the definition: position", {i - 1 : i \in badvalid}))
+       ELSE IF want.ok # e.ok \/ want.pos # e.pos THEN Fail("AllValid does not report the first invalid position")
        ELSE IF want.ok # e.qok \/ want.pos # e.qpos THEN Fail("AllValidQLetter does not report the first invalid position")
+       ELSE IF e.ok # e.qok \/ e.pos # e.qpos \/ e.ok # (firstbyisvalid = {}) \/ (~e.ok /\ firstbyisvalid # {e.pos + 1})
+         THEN Fail("AllValid, AllValidQLetter and IsValid disagree on the slice")
+       ELSE IF badsingle # {}
+         THEN Fail(Why("AllValid or AllValidQLetter of a one-letter slice disagrees with IsValid: position", {i - 1 : i \in badsingle}))
        ELSE OK
 
 Judge(e) ==
